@@ -16,7 +16,7 @@ RULE = ("random histories (depth 10..30) of traffic events (payloads arriving on
         "(mode, op history with lengths/pipes).")
 REQUIRED = {"read_leaves_fresh_status": 100, "status_attrs": 3000, "available": 300, "any": 300, "fifo": 1000, "read": 300,
             "clear_flags": 200, "flush": 200, "last_tx_arc": 100, "irq_line": 3000}
-BUDGET = {"quick": 150, "thorough": 420}
+BUDGET = {"quick": 480, "thorough": 900}
 
 ADDR = [b"\xA0\x11\x22\x33\x44", b"\xB1\x55\x66\x77\x88", b"\xB2", b"\xB3", b"\xB4", b"\xB5"]
 
